@@ -10,6 +10,36 @@ CH = ("bounded symbolic execution of the real lena code (CrossHair) with z3 deci
 
 # property -> (design section, level text, level note, technique)
 CHECKS = {
+    "C10": ("2/C10",
+            "every selective element is run symbolically over every interleaving (one symbolic bit per "
+            "position) of values it selects with foreign / disabled values on an in-memory world: foreign "
+            "values must come out as the same objects in order, and outputs, file-system and converter "
+            "logs must equal those of the run without them.",
+            "FakeFS/FakeOS/FakeSubprocess/FakeJinjaEnv; selected values are the harness's.", CH),
+    "C11": ("2/C11",
+            "SplitIntoBins (1-d symbolic widths and coordinates, 2-d in thorough) vs a private copy of the "
+            "analysis per cell fed with that cell's sub-flow; IterateBins/MapBins on 1-d and 2-d histograms.",
+            "coordinates in a small stated range (histogram.__init__ formats its bins: C boundary); the 1-d "
+            "bin search is the linear-scan reference (C06 layer K).", CH),
+    "C12": ("2/C12",
+            "scale/add/set_nevents/graph.scale/hist_to_graph/iter_bins*/iter_cells/ToCSV executed "
+            "symbolically over shapes (1-3 dims), offsets, weights, namings, modes, ranges; integer scales "
+            "exhaustively, symbolic float scales as bug hunting.",
+            "contents are concrete tags (symbolic contents x symbolic scale is non-linear; '{:f}' and "
+            "histogram.__init__ format their arguments); tolerance in the oracle.", CH),
+    "C19": ("2/C19",
+            "histories of runs of the full output chain over an in-memory file system, converters and "
+            "template environment: per run data/template change bits and a 4-bit deletion set are symbolic; "
+            "after every run the content chain csv->tex->pdf->png must be consistent with the current data "
+            "and template, unchanged runs must write/convert nothing, output.changed must be reported.",
+            "the model of the file system/converters (pdf = PDF(tex|csv), png = PNG(pdf)); one known "
+            "finding carved out (known_findings.json).", CH),
+    "C20": ("2/C20",
+            "clause 3 only: 45 public entry points with symbolic selectors over valid, boundary and "
+            "ill-typed arguments are executed symbolically; no path may end in NameError, "
+            "UnboundLocalError or AttributeError on a lena module.",
+            "clauses 1-2 (names of __all__, import of a single subpackage) are finite import-configuration "
+            "enumerations with no symbolic dimension: NOT decided by this technique and not claimed.", CH),
     "C01": ("2/C01",
             "Sequence/Source over a 15-kind element vocabulary, 6 bracketing/Source forms and flows of "
             "symbolic ints are executed symbolically against a manual left-to-right composition that "
